@@ -7,6 +7,7 @@ GetFeatureInfo / TMS / WMTS requests.  The observation is the upstream log: ever
 client is parsed like a server would parse it (axis order from pyproj) and judged against the source's
 configuration by an oracle that uses pyproj + exact grid arithmetic only (never mapproxy.srs / coverage / grid)."""
 import io
+import json
 import math
 import os
 import re
@@ -1106,6 +1107,10 @@ def request_url(req, tms_paths):
 # ---- case execution ----------------------------------------------------------------------------------------------
 
 def gen_cases(run):
+    # directed case: the open known finding (feature info keeps the client's code of a listed SRS) is reproduced in every run
+    with open(os.path.join(os.path.dirname(os.path.abspath(__file__)), 'c17_directed.json')) as f:
+        for c in json.load(f):
+            yield c
     for i in range(run.pick(2000, 30000)):
         yield {'i': i}
 
